@@ -29,6 +29,8 @@ def main(argv):
     if not argv or argv[0].startswith('-'):
         print(__doc__)
         return 2
+    if argv[0] == 'setup':
+        return do_setup()
     prop = argv[0]
     tier = os.environ.get('VERIF_TIER', 'quick')
     replay = None
@@ -212,6 +214,23 @@ class Ctx:
     def budget(self, quick, thorough):
         n = quick if self.quick else thorough
         return n * 10 if self.escalated and self.quick else n
+
+
+def do_setup():
+    """MANIFEST.setup_cmd: regenerate Gen/, build every .vo (full build, never -vos) and the extracted driver."""
+    t0 = time.time()
+    with vlib.BuildLock():
+        tr = vlib.translate()
+        vlib.ensure_makefile()
+        ok, log = vlib.make([f + 'o' for f in vlib.coq_files()], timeout=3000)
+        okd, dlog = vlib.build_driver()
+    print(f'setup: translator failures {len(tr["failures"])}, coq build {"ok" if ok else "FAILED"}, '
+          f'driver {"ok" if okd else "FAILED"}, {time.time() - t0:.0f}s')
+    if not ok:
+        print(log[-3000:])
+    if not okd:
+        print(dlog[-3000:])
+    return 0 if (ok and okd and not tr['failures']) else 1
 
 
 def do_replay(mod, prop, path):
